@@ -193,6 +193,26 @@ CLAIMED.update({
     },
 })
 
+CLAIMED.update({
+    "C07": {
+        "technique": "static analysis: impl/override census from the type-checked program; constant evaluation of capability flags; literal state-vector arity from MIR",
+        "level": ("Static, every impl of Accumulator (61) and AggregateUDFImpl (41): supports_retract_batch() constantly true <=> "
+                  "retract_batch overridden; groups_accumulator_supported() able to return true => create_groups_accumulator "
+                  "overridden; create_sliding_accumulator builds only retractable accumulators; where state() and merge_batch are "
+                  "literal (30 impls today, the rest counted as skipped) the number of state values written equals 1 + the largest "
+                  "state index read. Necessary for sliding windows and partial->final merging to work at all; the numeric "
+                  "split/merge/retract laws are not decided."),
+    },
+    "C09": {
+        "technique": "static analysis: impl/override census + constant evaluation of capability flags against the implementation table documented on the trait",
+        "level": ("Static, every impl of PartitionEvaluator (7): the flags uses_window_frame / supports_bounded_execution / include_rank "
+                  "(evaluated from MIR, dynamic flags expanded) select only evaluation methods the impl overrides, per the table in the "
+                  "trait documentation, so the bounded (streaming) and whole-partition executors never hit a default not-implemented "
+                  "method; accumulators used by sliding aggregate windows obey supports_retract_batch <=> retract_batch. Frame arithmetic "
+                  "and values are not decided."),
+    },
+})
+
 NA = {
     'C01': 'whole-pipeline value semantics over all queries x all table contents: functional verification, no clause visible in code shape beyond C03/C05/C47',
     'C08': 'ordering/permutation of runtime values (loser tree, cursors, heaps are value algorithms); no structural clause',
